@@ -9,6 +9,7 @@
 //!   {"a":"outok","i"} {"a":"outerr","i","k":"timeout|neg|io|apply"}    result for the i-th outstanding substream request
 //!   {"a":"inok","s"} {"a":"inerr","s"} inbound result / upgrade error of side s (info = the pair from listen_protocol)
 //!   {"a":"addr"}                       AddressChange
+//!   {"a":"pchg","local":bool,"added":bool}   LocalProtocolsChange / RemoteProtocolsChange (Added / Removed)
 //!   {"a":"ka","k1","k2"}               children's keep-alive flags, then connection_keep_alive()
 //!   {"a":"listen","n1","t1","n2","t2"} children's listen protocols (n names, timeout ms), then listen_protocol()
 //!   {"a":"qclose","s"} {"a":"cblock","s","on"} {"a":"pollclose"}       poll_close
@@ -140,9 +141,27 @@ impl<const S: u8> ConnectionHandler for Rec<S> {
                 };
                 self.cb("addr", v, 0, "")
             }
+            ConnectionEvent::LocalProtocolsChange(c) => {
+                let (v, added) = pc_tag(c);
+                self.cb("lpc", v, added, "")
+            }
+            ConnectionEvent::RemoteProtocolsChange(c) => {
+                let (v, added) = pc_tag(c);
+                self.cb("rpc", v, added, "")
+            }
             _ => self.cb("other", 0, 0, ""),
         }
     }
+}
+
+/// (tag encoded in the first protocol name "/pc/<tag>", 1 = Added / 0 = Removed)
+fn pc_tag(c: libp2p_swarm::handler::ProtocolsChange<'_>) -> (i64, i64) {
+    use libp2p_swarm::handler::ProtocolsChange;
+    let (name, added) = match c {
+        ProtocolsChange::Added(mut it) => (it.next().map(|p| p.as_ref().to_string()), 1),
+        ProtocolsChange::Removed(mut it) => (it.next().map(|p| p.as_ref().to_string()), 0),
+    };
+    (name.and_then(|n| n.rsplit('/').next().and_then(|x| x.parse().ok())).unwrap_or(-1), added)
 }
 
 fn run(sched: &Value) -> Vec<Value> {
@@ -286,6 +305,15 @@ fn run(sched: &Value) -> Vec<Value> {
                     h.on_connection_event(ConnectionEvent::AddressChange(AddressChange { new_address: &ma }));
                     json!({"e": "addr", "v": tag})
                 }
+                "pchg" => {
+                    tag += 1;
+                    let local = op["local"].as_bool().unwrap_or(true);
+                    let added = op["added"].as_bool().unwrap_or(true);
+                    let protos = [StreamProtocol::try_from_owned(format!("/pc/{tag}")).unwrap()];
+                    let c = libp2p_swarm::verif::protocols_change(added, &protos);
+                    h.on_connection_event(if local { ConnectionEvent::LocalProtocolsChange(c) } else { ConnectionEvent::RemoteProtocolsChange(c) });
+                    json!({"e": "pchg", "k": if local { "lpc" } else { "rpc" }, "v": tag, "added": if added { 1 } else { 0 }})
+                }
                 "ka" => {
                     let k1 = op["k1"].as_bool().unwrap_or(false);
                     let k2 = op["k2"].as_bool().unwrap_or(false);
@@ -372,6 +400,8 @@ fn letters() -> Vec<Value> {
         json!({"a": "inerr", "s": 1}),
         json!({"a": "inerr", "s": 2}),
         json!({"a": "addr"}),
+        json!({"a": "pchg", "local": true, "added": true}),
+        json!({"a": "pchg", "local": false, "added": false}),
         json!({"a": "ka", "k1": true, "k2": false}),
         json!({"a": "ka", "k1": false, "k2": true}),
         json!({"a": "ka", "k1": false, "k2": false}),
@@ -395,7 +425,8 @@ fn random_op(rng: &mut impl Rng) -> Value {
         54..=63 => json!({"a": "outerr", "i": rng.gen_range(0..4), "k": (["timeout", "neg", "io", "apply"][rng.gen_range(0..4)])}),
         64..=69 => json!({"a": "inok", "s": s}),
         70..=74 => json!({"a": "inerr", "s": s}),
-        75..=77 => json!({"a": "addr"}),
+        75..=76 => json!({"a": "addr"}),
+        77 => json!({"a": "pchg", "local": rng.gen_bool(0.5), "added": rng.gen_bool(0.5)}),
         78..=82 => json!({"a": "ka", "k1": rng.gen_bool(0.4), "k2": rng.gen_bool(0.4)}),
         83..=88 => json!({"a": "listen", "n1": rng.gen_range(0..3), "t1": (tos[rng.gen_range(0..5)]), "n2": rng.gen_range(0..3), "t2": (tos[rng.gen_range(0..5)])}),
         89..=92 => json!({"a": "qclose", "s": s}),
